@@ -309,6 +309,7 @@ func runC14(c *core.Ctx) {
 				return true
 			})
 		}
+		lenLoadOrd := map[string]int{}
 		core.AllFuncDecls(fp, func(fd *ast.FuncDecl) {
 			ast.Inspect(fd.Body, func(x ast.Node) bool {
 				call, ok := x.(*ast.CallExpr)
@@ -356,7 +357,19 @@ func runC14(c *core.Ctx) {
 						}
 					}
 				}
-				key := fmt.Sprintf("%s length-slot load %s in %s%s", flavour, f.Name(), core.FuncName(fp, fd), arm)
+				// keyed by what is loaded and how, not by the enclosing function: moving the code does not make a new finding,
+				// a further load of the same form does (ordinal)
+				detail := ""
+				switch f.Name() {
+				case "AsLoad":
+					detail = core.ExprStr(call.Args[len(call.Args)-1])
+				case "AsExtLoad":
+					detail = core.ExprStr(call.Args[0])
+				}
+				_ = arm
+				ordKey := flavour + "|" + f.Name() + "|" + detail
+				lenLoadOrd[ordKey]++
+				key := fmt.Sprintf("%s length-slot load %s(%s) #%d", flavour, f.Name(), detail, lenLoadOrd[ordKey])
 				switch f.Name() {
 				case "AsLoad":
 					last := call.Args[len(call.Args)-1]
